@@ -48,6 +48,9 @@ type Prog struct {
 	byPath   map[string]*packages.Package // import path -> package (all deps)
 	SSA      *ssa.Program
 	AllFuncs map[*ssa.Function]bool
+	// Resolve, when set, finds a function by its role after the lookup by name failed (rel = module-
+	// relative package, typ = receiver type or "", name = the name the rules know it by).
+	Resolve func(rel, typ, name string) *ssa.Function
 	ModFuncs []*ssa.Function // functions (incl. anonymous and instances) of the module
 	declOf   map[*types.Func]*FuncSyntax
 	litOf    map[token.Pos]*FuncSyntax
@@ -204,13 +207,20 @@ func (p *Prog) SSAPkg(rel string) *ssa.Package {
 	return p.SSA.Package(pkg.Types)
 }
 
-// Func returns a package-level function.
+// Func returns a package-level function. When no function has that name and a resolver is installed,
+// the function is looked up by its role (a renamed function is still the same anchor).
 func (p *Prog) Func(rel, name string) *ssa.Function {
 	sp := p.SSAPkg(rel)
 	if sp == nil {
 		return nil
 	}
-	return sp.Func(name)
+	if f := sp.Func(name); f != nil {
+		return f
+	}
+	if p.Resolve != nil {
+		return p.Resolve(rel, "", name)
+	}
+	return nil
 }
 
 // Named returns a named type of a module package.
@@ -257,7 +267,13 @@ func (p *Prog) Method(rel, typ, name string) *ssa.Function {
 	if n == nil {
 		return nil
 	}
-	return p.MethodOf(n, name)
+	if f := p.MethodOf(n, name); f != nil {
+		return f
+	}
+	if p.Resolve != nil {
+		return p.Resolve(rel, typ, name)
+	}
+	return nil
 }
 
 // MethodOf returns the SSA function of method name on named type n (value or pointer receiver).
